@@ -1165,7 +1165,7 @@ impl<'a> Exec<'a> {
         let phys_w: u64 = post.entries.iter().map(|e| weight_of(self.cfg, e.w_val) as u64).sum();
         self.over_capacity_now = cap.map_or(false, |c| phys_w > c);
         self.over_cap_after.push((step, self.over_capacity_now));
-        if self.pure_check && sync && matches!(prim, Prim::Contains { .. } | Prim::Iter) {
+        if self.pure_check && sync && matches!(prim, Prim::Contains { .. } | Prim::Iter | Prim::DebugFmt) {
             let a = &self.pre;
             if a.entries != post.entries || a.probation != post.probation || a.write_order != post.write_order
                 || a.read_q != post.read_q || a.write_q != post.write_q
